@@ -248,10 +248,10 @@ class DataTypeBuilder(_parser.StatementStreamProcessor):
         elif found[0].full_name != full_name and found[0].full_name.lower() == full_name.lower():
             # pragma: no cover
             # This only happens if the file system is case-sensitive.
+            # The mistake is in the referring definition (the file and the line are attached by the caller), not in the found one.
             raise DataTypeNameCollisionError(
-                "Full name of required definition %s differs from %s only by letter case, "
-                "which is not permitted" % (full_name, found[0].full_name),
-                path=found[0].file_path,
+                "Full name of required definition %s differs from %s (%s) only by letter case, "
+                "which is not permitted" % (full_name, found[0].full_name, found[0].file_path)
             )
 
         target_definition = found[0]
